@@ -104,12 +104,7 @@ func logClose(err error, pw *io.PipeWriter) {
 	}
 }
 
-func (r *request) buildHTTP(mediaType, basePath string, producers map[string]runtime.Producer, registry strfmt.Registry, auth runtime.ClientAuthInfoWriter) (*http.Request, error) { //nolint:gocyclo,maintidx
-	// build the data
-	if err := r.writer.WriteToRequest(r, registry); err != nil {
-		return nil, err
-	}
-
+func (r *request) buildHTTP(mediaType, basePath string, producers map[string]runtime.Producer, registry strfmt.Registry, auth runtime.ClientAuthInfoWriter) (_ *http.Request, buildErr error) { //nolint:gocyclo,maintidx
 	// Our body must be an io.Reader.
 	// When we create the http.Request, if we pass it a
 	// bytes.Buffer then it will wrap it in an io.ReadCloser
@@ -117,6 +112,18 @@ func (r *request) buildHTTP(mediaType, basePath string, producers map[string]run
 	var body io.Reader
 	var pr *io.PipeReader
 	var pw *io.PipeWriter
+
+	// when the request cannot be built, nobody will ever consume the files handed over for upload
+	defer func() {
+		if buildErr != nil {
+			r.releaseFiles(pr, buildErr)
+		}
+	}()
+
+	// build the data
+	if err := r.writer.WriteToRequest(r, registry); err != nil {
+		return nil, err
+	}
 
 	r.buf = bytes.NewBuffer(nil)
 	if r.payload != nil || len(r.formFields) > 0 || len(r.fileFields) > 0 {
@@ -352,6 +359,22 @@ DoneChoosingBodySource:
 	req.Header = r.header
 
 	return req, nil
+}
+
+// releaseFiles closes the files handed over for upload when the request is abandoned before being sent.
+//
+// When the goroutine streaming the multipart body has been started, failing the read side of its pipe
+// makes it stop and close the files itself.
+func (r *request) releaseFiles(pr *io.PipeReader, cause error) {
+	if pr != nil {
+		_ = pr.CloseWithError(cause)
+		return
+	}
+	for _, files := range r.fileFields {
+		for _, file := range files {
+			_ = file.Close()
+		}
+	}
 }
 
 func mangleContentType(mediaType, boundary string) string {
